@@ -39,6 +39,7 @@ type Baseline struct {
 	Property    string   `json:"property"`
 	Discharged  []string `json:"discharged"`  // obligation keys claimed (must stay discharged)
 	Unclaimed   []string `json:"unclaimed"`   // obligations not discharged on the pinned tree (reported, not claimed)
+	Failing     []string `json:"failing"`     // contract obligations REFUTED on the pinned tree: each needs a known-findings entry
 	Functions   []string `json:"functions"`
 }
 
@@ -236,12 +237,17 @@ func cmdCheck(args []string) {
 			}
 		}
 		for k, s := range st {
-			if s == "unsat" {
+			switch {
+			case s == "unsat":
 				b.Discharged = append(b.Discharged, k)
-			} else {
+			case s == "sat" && (strings.Contains(k, "/post:") || strings.Contains(k, "/inv-")):
+				b.Failing = append(b.Failing, k)
+				fmt.Println("  REFUTED contract obligation (needs a fix or a known-findings entry):", k)
+			default:
 				b.Unclaimed = append(b.Unclaimed, k)
 			}
 		}
+		sort.Strings(b.Failing)
 		sort.Strings(b.Discharged)
 		sort.Strings(b.Unclaimed)
 		for _, j := range jobs {
@@ -276,6 +282,9 @@ func cmdCheck(args []string) {
 
 	claimed := map[string]bool{}
 	for _, k := range base.Discharged {
+		claimed[k] = true
+	}
+	for _, k := range base.Failing {
 		claimed[k] = true
 	}
 	unclaimed := map[string]bool{}
